@@ -304,6 +304,13 @@ func PreMarshal(element Element, encoder *xml.Encoder, start *xml.StartElement) 
 				Name:  xml.Name{Local: "xmlns:olive"},
 				Value: "http://olive.io/spec/BPMN/MODEL",
 			},
+			// AnExpression.MarshalXML writes xsi:type; without this declaration
+			// the prefix is unbound and a parser no longer recognises formal
+			// expressions (they would come back as informal ones)
+			xml.Attr{
+				Name:  xml.Name{Local: "xmlns:xsi"},
+				Value: "http://www.w3.org/2001/XMLSchema-instance",
+			},
 		)
 	}
 }
